@@ -34,6 +34,9 @@ structure DState where
   rng : List UInt64 := []
   handlerReturns : Bool := false
   dead : Bool := false
+  oracle : Bool := false
+  /-- oracle mode: the registry as of the latest completed update, per policy -/
+  snaps : List (String × Registry) := []
 
 def DState.get (d : DState) : Option PState :=
   match d.cur with
@@ -115,6 +118,60 @@ def nextChain (c : Compiled) (mi : Nat) : Nat → Nat → List Nat × Option Cel
     | some other => ([me], some other)
     | none => ([me], none)
 
+/-- spec-level answer to a call: `Spec.selectB` on the registry of the latest update -/
+def oracleCall (cfg : Cfg) (reg : Registry) (m : MethodRec) (ids : List Nat) : String :=
+  let proj := cfg.proj
+  let regd := fun (id : Nat) => reg.classes.any (fun r => proj r.id == proj id)
+  match ids.find? (fun id => !regd id) with
+  | some id => if cfg.checks then s!"raised unknown_class {id}" else "illegal"
+  | none =>
+    if ids.length != m.vp.length || !((ids.zip m.vp).all (fun (a, p) => Spec.derivesB proj reg (proj a) (proj p))) then "illegal"
+    else
+      match Spec.selectB proj reg m.defs (ids.map proj) with
+      | .ran d => s!"ran {d}"
+      | .notImplemented => s!"raised resolution status=ni arity={m.vp.length} types={fmtNats (ids.take 16)}"
+      | .ambiguous => s!"raised resolution status=amb arity={m.vp.length} types={fmtNats (ids.take 16)}"
+
+/-- spec-level `next` chain starting from the definition a call selects -/
+def oracleNext (cfg : Cfg) (reg : Registry) (m : MethodRec) (ids : List Nat) : String :=
+  let proj := cfg.proj
+  let err := fun (st : String) => s!"raised resolution status={st} arity={m.vp.length} types={fmtNats (ids.take 16)}"
+  let rec go (fuel : Nat) (d : Nat) (acc : List Nat) : String :=
+    match fuel with
+    | 0 => s!"ran {fmtNats acc} end"
+    | fuel + 1 =>
+      match m.defs.find? (fun df => df.id == d) with
+      | none => s!"ran {fmtNats acc} end"
+      | some df =>
+        match Spec.nextB proj reg m.defs df with
+        | .ran d' => go fuel d' (acc ++ [d'])
+        | .notImplemented => s!"ran {fmtNats acc} " ++ err "ni"
+        | .ambiguous => s!"ran {fmtNats acc} " ++ err "amb"
+  match oracleCall cfg reg m ids with
+  | "illegal" => "illegal"
+  | r =>
+    if r.startsWith "ran " then
+      match (r.drop 4).toString.toNat? with
+      | some d => go (m.defs.length + 1) d [d]
+      | none => r
+    else "ran [] " ++ r
+
+def stepOracle (d : DState) (s : PState) (cmd : String) (nats : List Nat) : DState × List String :=
+  let name := d.cur.getD ""
+  if cmd == "update" then
+    match compile s.cfg.proj s.registry with
+    | .error (.unknownClass id) => ({ d with snaps := d.snaps.filter (fun e => e.1 != name) }, [s!"update raised unknown_class {id}"])
+    | _ => ({ d with snaps := (d.snaps.filter (fun e => e.1 != name)) ++ [(name, s.registry)] }, ["update ok"])
+  else if cmd == "dump" then (d, [])
+  else
+    match nats, d.snaps.find? (fun e => e.1 == name) with
+    | key :: ids, some (_, reg) =>
+      match reg.methods.find? (fun m => m.key == key) with
+      | none => (d, ["call bad-method"])
+      | some m =>
+        if cmd == "callnext" then (d, [oracleNext s.cfg reg m ids]) else (d, [oracleCall s.cfg reg m ids])
+    | _, _ => (d, ["call bad-state"])
+
 def step (d : DState) (tok : List String) : DState × List String :=
   match tok with
   | [] => (d, [])
@@ -130,6 +187,9 @@ def step (d : DState) (tok : List String) : DState × List String :=
     | none => (d, ["!harness no policy selected"])
     | some s =>
       let nats := args.filterMap String.toNat?
+      if d.oracle && (cmd == "update" || cmd == "dump" || cmd == "call" || cmd == "callnext" || cmd == "callfinal") then
+        stepOracle d s cmd nats
+      else
       match cmd, args with
       | "static", _ => (d, [])
       | "budget", _ => (d.set { s with budget := nats.headD 100000 }, [])
@@ -213,7 +273,7 @@ partial def loop (h : IO.FS.Stream) (out : IO.FS.Stream) (d : DState) : IO Unit 
   let l := line.trimAscii.toString
   if l.startsWith "--- " then
     out.putStrLn l
-    loop h out {}
+    loop h out { oracle := d.oracle }
   else if d.dead then loop h out d
   else
     let tok := (l.splitOn " ").filter (fun t => !t.isEmpty)
@@ -223,7 +283,7 @@ partial def loop (h : IO.FS.Stream) (out : IO.FS.Stream) (d : DState) : IO Unit 
       for x in lines do out.putStrLn x
       loop h out d'
 
-def main : IO Unit := do
+def main (args : List String) : IO Unit := do
   let stdin ← IO.getStdin
   let stdout ← IO.getStdout
-  loop stdin stdout {}
+  loop stdin stdout { oracle := args.contains "--oracle" }
